@@ -264,6 +264,14 @@ fn mentioned(doc: &Document, id: ObjectId) -> bool {
     v.contains(&id)
 }
 
+/// the object a page id ends at when reference objects are followed (two ids with the same target are one page)
+fn target(doc: &Document, id: ObjectId) -> ObjectId {
+    match doc.dereference(&Object::Reference(id)) {
+        Ok((Some(last), _)) => last,
+        _ => id,
+    }
+}
+
 /// class predicates of the known findings, evaluated on the document before the call
 /// Contents is something else than: absent / a reference that directly names a stream / an array of such references
 fn contents_plain(doc: &Document, page: ObjectId) -> bool {
@@ -276,14 +284,22 @@ fn contents_plain(doc: &Document, page: ObjectId) -> bool {
     }
 }
 
-/// some content stream of the page is also used by another page (or twice by this one)
+/// some content stream of the page is also used by another page (or twice by this one); content
+/// stream ids are compared after following reference objects to the stream they end at
 fn contents_shared(doc: &Document, page: ObjectId) -> bool {
-    let mine = doc.get_page_contents(page);
+    let resolve = |id: ObjectId| -> ObjectId {
+        match doc.dereference(&Object::Reference(id)) {
+            Ok((Some(last), _)) => last,
+            _ => id,
+        }
+    };
+    let ids = |p: ObjectId| -> Vec<ObjectId> { doc.get_page_contents(p).into_iter().map(resolve).collect() };
+    let mine = ids(page);
     let mut s = BTreeSet::new();
     if !mine.iter().all(|i| s.insert(*i)) {
         return true;
     }
-    doc.page_iter().filter(|p| *p != page).any(|p| doc.get_page_contents(p).iter().any(|i| mine.contains(i)))
+    doc.page_iter().filter(|p| target(doc, *p) != target(doc, page)).any(|p| ids(p).iter().any(|i| mine.contains(i)))
         || doc.page_iter().fold(0usize, |n, p| if p == page { n + 1 } else { n }) > 1
 }
 
@@ -526,7 +542,7 @@ fn main() {
                         let pc1 = page_contents(&doc);
                         let fresh_clash = doc.max_id != before.max_id && mentioned(&before, (doc.max_id, 0));
                         if pc0.iter().any(|(q, _)| q == p) && !fresh_clash {
-                            ck.req(n, pc0.len() == pc1.len() && pc0.iter().zip(pc1.iter()).all(|((q0, c0), (q1, c1))| q0 == q1 && if q0 == p { c1.as_deref() == Some(c.as_slice()) } else { c0 == c1 }),
+                            ck.req(n, pc0.len() == pc1.len() && pc0.iter().zip(pc1.iter()).all(|((q0, c0), (q1, c1))| q0 == q1 && if target(&before, *q0) == target(&before, *p) { c1.as_deref() == Some(c.as_slice()) } else { c0 == c1 }),
                                    || format!("{}change_page_content({:?}): afterwards the page does not show exactly the new content, or another page changed", tag, p));
                         }
                     } else {
@@ -546,7 +562,7 @@ fn main() {
                         let pc1 = page_contents(&doc);
                         let fresh_clash = mentioned(&before, (doc.max_id, 0));
                         if pc0.iter().any(|(q, _)| q == p) && !fresh_clash {
-                            ck.req(n, pc0.len() == pc1.len() && pc0.iter().zip(pc1.iter()).all(|((q0, c0), (q1, c1))| q0 == q1 && if q0 == p {
+                            ck.req(n, pc0.len() == pc1.len() && pc0.iter().zip(pc1.iter()).all(|((q0, c0), (q1, c1))| q0 == q1 && if target(&before, *q0) == target(&before, *p) {
                                        match (c0, c1) { (Some(a), Some(b)) => { let mut w = a.clone(); w.extend_from_slice(&c); w == *b } _ => false }
                                    } else { c0 == c1 }),
                                    || format!("{}add_page_contents({:?}): afterwards the page does not show its old content followed by the new one, or another page changed", tag, p));
@@ -570,12 +586,11 @@ fn main() {
                         if let Some(r0) = eff_resources(&before, q) {
                             let r1 = eff_resources(&doc, q).unwrap_or_default();
                             for (k, v) in &r0 {
-                                let kept = match r1.get(k) {
-                                    Some(v1) => v1 == v || Some(k) == set.as_ref() || k.1.is_empty(),
-                                    None => false,
-                                };
+                                // the name must still be there (its value may be the very dictionary the call wrote into)
+                                let _ = v;
+                                let kept = r1.contains_key(k);
                                 if !kept {
-                                    let tag = if q == *p && inherits_only(&before, *p) { "[C11-resources-shadow] " } else { "" };
+                                    let tag = if inherits_only(&before, *p) { "[C11-resources-shadow] " } else { "" };
                                     ck.req(n, false, || format!("{}after the resource operation on {:?}, page {:?} can no longer use /{} /{}", tag, p, q,
                                                                  String::from_utf8_lossy(&k.0), String::from_utf8_lossy(&k.1)));
                                     break;
